@@ -123,6 +123,10 @@ struct XlsSheetSpec {
 struct XlsSpec {
     seed: u64,
     sheets: Vec<XlsSheetSpec>,
+    /// physical order of the sheet substreams in the Workbook stream (a permutation of the sheet indices; the
+    /// BoundSheet8 records stay in tab order, each pointing at its own substream); `None` = tab order
+    #[serde(default, skip_serializing_if = "Option::is_none")]
+    order: Option<Vec<usize>>,
 }
 
 #[derive(Clone, Debug)]
@@ -1158,6 +1162,7 @@ fn eval_xls(spec: &XlsSpec, drv: &mut Driver) -> Outcome {
         model_reqs.push(format!("xlssheet {}", if recs.is_empty() { "10:-".to_string() } else { recs.join(" ") }));
         book.sheets.push(xs);
     }
+    book.substream_order = spec.order.clone();
     let bytes = if spec.seed == 0 { book.to_bytes_plain(&mut rng) } else { book.to_bytes(&mut rng) };
     let wb: Xls<_> = match guarded(|| Xls::new(Cursor::new(bytes))) {
         Ok(Ok(w)) => w,
@@ -1561,7 +1566,15 @@ fn gen_xls(rng: &mut Rng) -> XlsSpec {
         }
         sheets.push(XlsSheetSpec { name: names[i].to_string(), items });
     }
-    XlsSpec { seed: if rng.chance(1, 6) { 0 } else { rng.next() | 1 }, sheets }
+    // the substreams need not be stored in tab order
+    let order = if ns >= 2 && rng.chance(1, 2) {
+        let mut o: Vec<usize> = (0..ns).collect();
+        rng.shuffle(&mut o);
+        Some(o)
+    } else {
+        None
+    };
+    XlsSpec { seed: if rng.chance(1, 6) { 0 } else { rng.next() | 1 }, sheets, order }
 }
 
 // ------------------------------------------------------------------------------------------------
@@ -1676,6 +1689,14 @@ fn xls_candidates(s: &XlsSpec) -> Vec<XlsSpec> {
         if s.sheets.len() > 1 {
             let mut c = s.clone();
             c.sheets.remove(i);
+            if let Some(o) = &mut c.order {
+                o.retain(|x| *x != i);
+                for x in o.iter_mut() {
+                    if *x > i {
+                        *x -= 1;
+                    }
+                }
+            }
             v.push(c);
         }
         for k in 0..s.sheets[i].items.len() {
@@ -1694,6 +1715,11 @@ fn xls_candidates(s: &XlsSpec) -> Vec<XlsSpec> {
     if s.seed != 0 {
         let mut c = s.clone();
         c.seed = 0;
+        v.push(c);
+    }
+    if s.order.is_some() {
+        let mut c = s.clone();
+        c.order = None;
         v.push(c);
     }
     v
@@ -1772,6 +1798,8 @@ fn corpus() -> Vec<String> {
         r#"xlsx {"layout":0,"sheets":[{"name":"Big","cells":[[9,18,1],[1371,19,16],[1414,20,2]],"merges":[]}],"tables":[{"sheet":0,"name":"Big","r":[15,17,1412,19],"hdr":1,"tot":0,"cols":["Column1","Column2","Column3"],"abs":false}]}"#.into(),
         // several sheets, regions at the far corner, attribution
         r#"xlsx {"layout":0,"sheets":[{"name":"A","cells":[],"merges":[{"r":[1048575,16383,1048575,16383],"f":0},{"r":[0,0,1048575,16383],"f":0}]},{"name":"B","cells":[[3,3,7]],"merges":[]},{"name":"C","cells":[],"merges":[{"r":[5,26,9,702],"f":3}],"mc_empty":true}],"tables":[]}"#.into(),
+        // seeded change C17-m11: substreams stored in another order than the tabs (each BoundSheet8 points at its own)
+        r#"xls {"seed":0,"sheets":[{"name":"S1","items":[{"C":[0,0,1]},{"M":[[0,0,1,1]]}]},{"name":"S2","items":[{"M":[[2,2,3,3],[4,4,4,5]]}]},{"name":"S3","items":[{"C":[1,1,5]},{"M":[[6,0,6,255]]}]}],"order":[2,0,1]}"#.into(),
         // xls: two records, regions at IV65536
         r#"xls {"seed":0,"sheets":[{"name":"S1","items":[{"C":[0,0,1]},{"M":[[0,0,1,1],[65535,255,65535,255]]},{"C":[2,2,2]},{"M":[[3,0,3,255]]}]},{"name":"S2","items":[{"M":[]}]}]}"#.into(),
     ];
@@ -1807,7 +1835,7 @@ fn main() {
          mergeCells count wrong or missing, extra attributes before/after a mergeCell ref; the other \
          CT_Worksheet children in schema order around sheetData/mergeCells, customSheetViews nesting \
          pageMargins/printOptions/pageSetup/headerFooter; every 40th file a table of 4096..~2^15 cells on a \
-         used range of the same width shifted by -2..2 columns) and xls (1-3 sheets, 0-3 MERGEDCELLS records of 0-1027 regions among the cell records); \
+         used range of the same width shifted by -2..2 columns) and xls (1-3 sheets, 0-3 MERGEDCELLS records of 0-1027 regions among the cell records, sheet substreams stored in tab order or permuted); \
          oracle = the declared regions (count, order, corners, sheet) and for tables name, sheet, columns \
          and the sheet's values over ref minus header/totals rows; no expectation for malformed/reversed \
          refs, and for the geometry of insertRow tables; a table whose header/totals rows leave no \
